@@ -9,6 +9,7 @@ import (
 	"encoding/hex"
 	"errors"
 	"fmt"
+	"sort"
 	"strings"
 
 	openfgav1 "github.com/openfga/api/proto/openfga/v1"
@@ -61,6 +62,8 @@ func tokens(n int) []tokenSpec {
 		{position{Ulid: ulids[3], Type: "|"}, keys[2]},        // 28 B -> 56 B                 (2)
 		{position{Raw: true, Ulid: "0"}, keys[0]},             //  1 B -> 29 B                 (2)
 		{position{Ulid: ulids[4], Type: ""}, keys[3]},         // 27 B -> 55 B                 (1)
+		{position{Ulid: "100", Type: "doc|"}, baseKey("word", 32)}, // key of exactly the cipher key size
+		{position{Ulid: ulids[9], Type: "é"}, baseKey("pat", 65)},  // key longer than the hash block
 	}
 	seen := map[string]bool{}
 	for _, t := range out {
@@ -93,6 +96,9 @@ type Case struct {
 	Level    string    `json:"level"`          // encoder | pipeline
 	Got      string    `json:"got,omitempty"`  // what the implementation answered
 	ReqType  string    `json:"request_type,omitempty"`
+	// exact key bytes (keys of the related-key families may contain bytes that JSON cannot carry)
+	MintKeyHex   string `json:"mint_key_hex,omitempty"`
+	DecodeKeyHex string `json:"decode_key_hex,omitempty"`
 }
 
 func newEnc(key string) (*encoder.TokenEncoder, error) {
@@ -162,20 +168,29 @@ func (c *checker) pipeline(cs Case, dec *encoder.TokenEncoder, issuedBytes []byt
 	if p.Raw {
 		return
 	}
+	c.r.Eval(1)
+	c.pipelineTo(cs, dec, issuedBytes, p, func(sig, desc string, cs Case) { c.r.Violate(sig, desc, cs) })
+}
+
+// pipelineOtherKey: the token was minted under another key than dec's, so nothing is an alias.
+func (c *checker) pipelineOtherKey(cs Case, dec *encoder.TokenEncoder, p position, report func(sig, desc string, cs Case)) {
+	c.pipelineTo(cs, dec, nil, p, report)
+}
+
+func (c *checker) pipelineTo(cs Case, dec *encoder.TokenEncoder, issuedBytes []byte, p position, report func(sig, desc string, cs Case)) {
 	refBytes, wellFormed := refB64Decode(cs.Mutant)
 	alias := wellFormed && bytes.Equal(refBytes, issuedBytes)
 	be := &stubBackend{next: "01ARZ3NDEKTSV4RRFFQ69G5FAV"}
 	q := commands.NewReadChangesQuery(be, commands.WithReadChangesQueryEncoder(dec))
 	_, err := q.Execute(context.Background(), &openfgav1.ReadChangesRequest{StoreId: "s", Type: p.Type, ContinuationToken: cs.Mutant})
-	c.r.Eval(1)
 	cs.Level = "pipeline"
 	cs.ReqType = p.Type
 	if be.calls > 0 && !(alias && be.from == p.Ulid) {
 		cs.Got = fmt.Sprintf("storage was asked to continue from %q (err=%v)", be.from, err)
-		c.r.Violate("tamper-accepted/pipeline-"+cs.Class, fmt.Sprintf("ReadChanges accepted %s and continued from position %q", cs.Mutation, be.from), cs)
+		report("tamper-accepted/pipeline-"+cs.Class, fmt.Sprintf("ReadChanges accepted %s and continued from position %q", cs.Mutation, be.from), cs)
 	} else if be.calls == 0 && !errors.Is(err, serverErrors.ErrInvalidContinuationToken) {
 		cs.Got = fmt.Sprint(err)
-		c.r.Violate("pipeline/wrong-error", fmt.Sprintf("ReadChanges answered %v to %s, want ErrInvalidContinuationToken", err, cs.Mutation), cs)
+		report("pipeline/wrong-error", fmt.Sprintf("ReadChanges answered %v to %s, want ErrInvalidContinuationToken", err, cs.Mutation), cs)
 	}
 }
 
@@ -350,7 +365,9 @@ func (c *checker) tamperToken(idx int, ts tokenSpec, otherKeys []string) {
 		c.fail("roundtrip/encode-decode", fmt.Sprintf("Decode(Encode(%q)) under key %q = %q, %v", plaintext, ts.Key, got, err), ts)
 		return
 	}
-	if bytes.Contains(issuedBytes, []byte(plaintext)) {
+	// only for positions of >= 8 bytes: a shorter one occurs among the random nonce/ciphertext bytes by
+	// chance (a 1-byte position in a 29-byte token: 11 % of the runs), which would not be deterministic
+	if len(plaintext) >= 8 && bytes.Contains(issuedBytes, []byte(plaintext)) {
 		c.fail("confidentiality/plaintext-in-token", fmt.Sprintf("token issued under key %q contains the position %q in clear", ts.Key, plaintext), ts)
 	}
 	c.r.Count("issued_token_bytes_total", int64(len(issuedBytes)))
@@ -479,12 +496,16 @@ func (c *checker) base64Grid() {
 func Run(o *core.Options) int {
 	r := core.NewReport(o, "exploration",
 		"positions = {ULIDs, decimal offsets, \"0\", \"-1\", empty} x types {plain, empty, containing '|', multi-byte, newline, long} (+ raw byte positions), each with no key and with every key of a 5-key set: Serialize/Encode/Decode/Deserialize and the ReadChanges command must return exactly the issued (position, type), and a token presented with another type filter is refused. "+
-			"For N issued encrypted tokens (N=6 quick, 50 thorough; three padding residues): EVERY single-byte substitution (255 values x every byte), every proper prefix and suffix, every one-byte insertion (256 values x every position), every single-character substitution/deletion/insertion/prefix of the base64 text over the base64url alphabet plus = + / CR LF space, the unmodified token under every other key, and unencrypted base64 forgeries of every position under every key; each is presented to TokenEncoder.Decode and to ReadChanges. "+
-			"Oracle: a presented token is accepted only if it is a base64 respelling of exactly the issued bytes (decided by an independent RFC 4648 decoder) and then yields exactly the issued position. non-trivial = a mutant that is well-formed base64 of >= 28 bytes (so AES-GCM authentication, not syntax, decides) or a completed round trip; distinct by (token, mutation)")
+			"For N issued encrypted tokens (N=8 quick, 52 thorough; three padding residues; keys of 0, 1, 5, 32, 65 and 100 bytes): EVERY single-byte substitution (255 values x every byte), every proper prefix and suffix, every one-byte insertion (256 values x every position), every single-character substitution/deletion/insertion/prefix of the base64 text over the base64url alphabet plus = + / CR LF space, the unmodified token under every other key, and unencrypted base64 forgeries of every position under every key; each is presented to TokenEncoder.Decode and to ReadChanges. "+
+			"KEY dimension: for every key length in key_lengths (1, 2, 8 and n-1/n/n+1 around the AES key sizes 16/24/32, the SHA-256 digest 32 and block 64 and its padding boundary 55/56, plus 40 and 80; thorough adds 96..257) and three base-key styles (one repeated character, a non-periodic printable pattern, a deployment-style string with a rotation suffix), the family of ALL syntactically related keys: one byte xor 0x01/0x20/0x80 at EVERY position, every proper prefix (incl. the empty key) and suffix, one-byte and '-rotated' extensions, doubling/tripling, zero/space/'0'/cyclic padding up to 16/24/32/48/64/128 bytes, N appended zero bytes, rotations, swaps, reversal, case changes and the hex spelling; plus one cross-length family of all base keys. Every key mints a token for a typed ULID position and for the shortest position and round-trips it; then for EVERY ordered pair (A,B) of distinct keys of a family the token minted under A is presented to Decode under B, and for all pairs involving the base key (all pairs in the cross-length family) also to ReadChanges configured with B. Key-pair oracle: two keys are the same key iff they are the same byte string, so every such presentation must be refused (Decode error; ReadChanges answers ErrInvalidContinuationToken and never reaches storage). "+
+			"Token oracle: a presented token is accepted only if it is a base64 respelling of exactly the issued bytes (decided by an independent RFC 4648 decoder) and then yields exactly the issued position. non-trivial = a mutant that is well-formed base64 of >= 28 bytes (so AES-GCM authentication, not syntax, decides) or a completed round trip, or a cross-key presentation of a full-length token; distinct by (token, mutation) resp. (minting key, server key) — in families of more than 128 keys only pairs involving the base key are recorded as distinct, all pairs are executed and counted (related_key_pairs)")
 	r.Assume("AES-GCM tag forgery probability 2^-128 per mutant is treated as zero; nonces are random, the verdict only uses the bytes that were issued",
 		"the encrypted encoder is TokenEncoder(GCMEncrypter(key), Base64Encoder) as in pkg/encoder tests; no production code path in the pinned tree constructs it (cmd/run uses Base64Encoder only)",
 		"the empty token is the documented 'no token' and is not a mutant; without a key tokens are plain base64 and only round-trip exactness is claimed",
-		"positions never contain '|' (ULIDs, decimal offsets); types may")
+		"positions never contain '|' (ULIDs, decimal offsets); types may",
+		"keys are arbitrary Go strings (NewGCMEncrypter takes a string and documents no restriction): related keys may contain NUL and non-UTF-8 bytes; every key of every family must be accepted by NewGCMEncrypter and round-trip its own tokens",
+		"key identity is byte-string identity: no normalisation (case, padding, whitespace, truncation) of the configured key is documented, so tokens minted under any different byte string count as 'not issued under that key'; pairs are taken inside a family (and across lengths between base keys), not across all 13 644 keys",
+		"the clear-text containment check applies to positions of >= 8 bytes only (shorter ones occur among random token bytes by chance)")
 	c := &checker{r: r}
 
 	if o.Replay != "" {
@@ -492,6 +513,12 @@ func Run(o *core.Options) int {
 		if err := core.LoadReplay(o.Replay, &cs); err != nil || cs.Mutant == "" {
 			fmt.Println("replay: not a mutation case (round-trip cases are re-run by the normal run):", err)
 			return 2
+		}
+		if b, err := hex.DecodeString(cs.DecodeKeyHex); err == nil && cs.DecodeKeyHex != "" {
+			cs.DecodeAs = string(b)
+		}
+		if b, err := hex.DecodeString(cs.MintKeyHex); err == nil && cs.MintKeyHex != "" {
+			cs.Spec.Key = string(b)
 		}
 		dec, err := newEnc(cs.DecodeAs)
 		if err != nil {
@@ -510,9 +537,9 @@ func Run(o *core.Options) int {
 		return r.Finish()
 	}
 
-	nTokens := 6
+	nTokens := 8
 	if o.Thorough() {
-		nTokens = 50
+		nTokens = 52
 	}
 	toks := tokens(nTokens)
 	r.Set("tokens_mutated", len(toks))
@@ -557,5 +584,62 @@ func Run(o *core.Options) int {
 	r.Parallel(len(toks), func(i int) { c.tamperToken(i, toks[i], keys) })
 	// 3. forgeries
 	c.forgeries(all, keys)
+
+	// 4. the key dimension: families of related keys, every ordered pair inside each family
+	type family struct {
+		name string
+		keys []relKey
+		pipe func(a, b int) bool
+	}
+	var fams []family
+	cross := family{name: "cross-length", pipe: func(a, b int) bool { return true }}
+	crossSeen := map[string]bool{}
+	addCross := func(k, rel string) {
+		if !crossSeen[k] {
+			crossSeen[k] = true
+			cross.keys = append(cross.keys, relKey{k, rel})
+		}
+	}
+	for _, k := range keys {
+		addCross(k, "fixed key set")
+	}
+	lens := keyLengths(o.Thorough())
+	for _, n := range lens {
+		for _, st := range keyStyles {
+			b := baseKey(st, n)
+			addCross(b, fmt.Sprintf("%s(%d)", st, n))
+			fams = append(fams, family{name: fmt.Sprintf("%s(%d)", st, n), keys: neighbourhood(b), pipe: func(a, b int) bool { return a == 0 || b == 0 }})
+		}
+	}
+	fams = append(fams, cross)
+	nKeys := 0
+	for _, f := range fams {
+		nKeys += len(f.keys)
+	}
+	r.Set("key_lengths", lens)
+	r.Set("key_families", len(fams))
+	r.Set("keys_in_families_total", nKeys)
+	r.Sample(map[string]any{"key_family": fams[len(keyStyles)*9+2].name, "keys": len(fams[len(keyStyles)*9+2].keys), "base": fams[len(keyStyles)*9+2].keys[0].Key,
+		"relations": "one byte xor {01,20,80} at every position; every proper prefix/suffix; +1 byte; +suffix; doubled/tripled; zero/space/'0'/cyclic padding to 16,24,32,48,64,128; +N zero bytes; rotations, swaps, reversal, case, hex spelling"})
+	results := make([]*keyJobResult, len(fams))
+	// largest families first for load balance; results are submitted in family order
+	order := make([]int, len(fams))
+	for i := range order {
+		order[i] = i
+	}
+	sort.SliceStable(order, func(x, y int) bool { return len(fams[order[x]].keys) > len(fams[order[y]].keys) })
+	done := make([]bool, len(fams))
+	r.Parallel(len(fams), func(j int) {
+		i := order[j]
+		results[i] = c.relatedKeys(fams[i].name, fams[i].keys, fams[i].pipe)
+		done[i] = true
+	})
+	for i := range done {
+		if !done[i] {
+			r.NotExhaustive("deadline reached before every key family was run")
+			break
+		}
+	}
+	c.submit(results)
 	return r.Finish()
 }
